@@ -593,7 +593,8 @@ def r10_6(ctx: Ctx, rule="R10.6"):
             continue
         l = sorted(loops, key=lambda x: x.lineno)[-1]
         key = norm(l.target)
-        for p in enum_paths(l.body):
+        from ..cfg import resolve_flags as _rf10
+        for p in _rf10(enum_paths(l.body)):
             st = p.stmts()
             stores = [s_ for s_ in st if isinstance(s_, ast.Assign) and isinstance(s_.targets[0], ast.Subscript)
                       and norm(s_.targets[0].slice) == key and norm(s_.targets[0].value) != inp]
